@@ -3,7 +3,9 @@ Text-level round trip (property C06): what `UpdateFromText` applied to `WriteToS
 output is supposed to produce, for value trees of *static* shape — written from the property
 statement ("every emitted field reads back equal"): the sequence of `TryToWrite` calls is the
 sequence of the tree's emitted (not read-only) leaves, each with its own value, addressed by its
-path (`a.b[2]`), in the order of the text.
+path (`a.b[2]`), in the order of the text.  Unreadable atomic fields / elements (`skip` nodes, only written about
+with `allow_partial_output`) are not in the text and not among the writes; an unreadable array
+element still counts as an index.
 
 `Matches shape v`: the value tree `v` is what a view of static shape `shape` can hold (integer
 in the range of its `ValueType` and of the field, enum name known to the reader with that
@@ -33,15 +35,25 @@ def writesVal (path : List Char) : TVal → List Write
 def writesElems (path : List Char) (i : Nat) : TVals → List Write
   | .nil => []
   | .cons v vs => writesVal (pathIdx path i) v ++ writesElems path (i + 1) vs
+  | .skip vs => writesElems path (i + 1) vs
 def writesFields (path : List Char) : TFields → List Write
   | .nil => []
   | .cons name false v fs => writesVal (pathField path name) v ++ writesFields path fs
   | .cons _ true _ fs => writesFields path fs
+  | .skip _ fs => writesFields path fs
 end
 
+/-- `ElementCount()`: unreadable elements count. -/
 def TVals.length : TVals → Nat
   | .nil => 0
   | .cons _ vs => vs.length + 1
+  | .skip vs => vs.length + 1
+
+/-- Number of elements that are written. -/
+def TVals.written : TVals → Nat
+  | .nil => 0
+  | .cons _ vs => vs.written + 1
+  | .skip vs => vs.written
 
 /-- An enum name is not mistaken for a number by `ReadEnumViewFromTextStream` (which looks at
 the first character: digit ⇒ unsigned number, `-` ⇒ signed number, else a name).  Emboss enum
@@ -71,29 +83,33 @@ def Matches : RShape → TVal → Prop
 def MatchesAll : RShape → TVals → Prop
   | _, .nil => True
   | e, .cons v vs => Matches e v ∧ MatchesAll e vs
+  | e, .skip vs => MatchesAll e vs
 def MatchesFields : RFields → TFields → Prop
   | _, .nil => True
   | rfs, .cons name false v fs =>
     (∃ s, findField rfs name = some s ∧ Matches s v) ∧ MatchesFields rfs fs
   | rfs, .cons _ true _ fs => MatchesFields rfs fs
+  | rfs, .skip _ fs => MatchesFields rfs fs
 end
 
 mutual
-/-- Every array of the tree has at most one element. -/
+/-- Every array of the tree has at most one written element. -/
 def TVal.SmallArrays : TVal → Prop
   | .scalar _ => True
-  | .arr _ vs => vs.length ≤ 1 ∧ vs.SmallArrays
+  | .arr _ vs => vs.written ≤ 1 ∧ vs.SmallArrays
   | .struct fs => fs.SmallArrays
 def TVals.SmallArrays : TVals → Prop
   | .nil => True
   | .cons v vs => v.SmallArrays ∧ vs.SmallArrays
+  | .skip vs => vs.SmallArrays
 def TFields.SmallArrays : TFields → Prop
   | .nil => True
   | .cons _ _ v fs => v.SmallArrays ∧ fs.SmallArrays
+  | .skip _ fs => fs.SmallArrays
 end
 
 /-- The exact boundary of the open finding `multiline-array-elements-not-comma-separated`:
-no array with two or more elements is written in multi-line mode (the multi-line form of
+no array with two or more written elements is written in multi-line mode (the multi-line form of
 `WriteArrayToTextStream` separates elements by line breaks only, `ReadArrayFromTextStream`
 insists on `,`; arrays with zero or one element need no separator and are re-read). -/
 def noMultilineArray (o : Opts) (v : TVal) : Prop := o.multiline = true → v.SmallArrays
@@ -107,10 +123,12 @@ def needVal : TVal → Nat
 def needElems : TVals → Nat
   | .nil => 1
   | .cons v vs => 1 + needVal v + needElems vs
+  | .skip vs => needElems vs
 def needFields : TFields → Nat
   | .nil => 1
   | .cons _ false v fs => 1 + needVal v + needFields fs
   | .cons _ true _ fs => needFields fs
+  | .skip _ fs => needFields fs
 end
 
 end Emboss.Text
